@@ -85,8 +85,15 @@ Theorem C14_whole_run : forall c pkts ff s shown e, Forall wf_pkt pkts -> N.of_n
   k_unique s = unique_error_codes (k_errors s) (k_custom s) /\ k_finalized s = true.
 Proof. exact (fun c pkts ff s shown e H1 H2 H3 => c14_whole_run c pkts (eq_refl : Gen.Facts.cdp_offset_sampled_after = true) H1 H2 H3 ff s shown e). Qed.
 
+(* the 20 per-bit trigger counters of the model (Model/Collector.v trigger_bits: bits 0..14 and 27..31, one independent count each) are the
+   statements of the source: TriggerStats::collect_stats consists of one `self.<counter> += (trigger & <mask> != 0) as u32;` per counter,
+   with these masks in this order (fact re-read on every run; a counter fed any other way makes the list shorter) *)
+Theorem C14_trigger_bits_as_modelled : Gen.Facts.trigger_stat_masks = map (fun i => 2 ^ i) trigger_bits.
+Proof. vm_compute. reflexivity. Qed.
+
 Print Assumptions C14_statistics_equal_ground_truth.
 Print Assumptions C14_scanner_statistics.
 Print Assumptions C14_finalize.
 Print Assumptions C14_error_total.
 Print Assumptions C14_whole_run.
+Print Assumptions C14_trigger_bits_as_modelled.
